@@ -4,7 +4,7 @@ import ast
 import re
 
 from ..pycfg import CFG, walk_no_nested
-from ..source import atoms, AnalysisError, find_function, find_class, first_line, src, functions, enclosing_function, enclosing_class, qualname, linear
+from ..source import atoms, call_name, AnalysisError, find_function, find_class, first_line, src, functions, enclosing_function, enclosing_class, qualname, linear
 
 SM = "nemoguardrails/colang/v2_x/runtime/statemachine.py"
 FLOWS = "nemoguardrails/colang/v2_x/runtime/flows.py"
@@ -585,18 +585,59 @@ def b_instance_uid_unique(ctx):
     disp = find_function(t, "_process_internal_events_without_default_matchers")
     if add is None or disp is None:
         raise AnalysisError("add_new_flow_instance / dispatch not found", anchor=SM + "::add_new_flow_instance")
-    def tests_uid(fn):
-        return any(isinstance(a_, ast.Compare) and len(a_.ops) == 1 and isinstance(a_.ops[0], (ast.In, ast.NotIn)) and src(a_.comparators[0]).endswith("flow_states")
-                   and ("uid" in src(a_.left)) for i in ast.walk(fn) if isinstance(i, ast.If) for a_ in atoms(i.test)) or \
-            any(isinstance(c, ast.Call) and isinstance(c.func, ast.Attribute) and c.func.attr == "get" and src(c.func.value).endswith("flow_states") and "flow_instance_uid" in src(c)
-                and "source" not in src(c) for c in ast.walk(fn))
+    from ..pycfg import build
+    cfg = build(add)
+    lookups = {a.targets[0].id for a in ast.walk(add) if isinstance(a, ast.Assign) and isinstance(a.targets[0], ast.Name) and isinstance(a.value, ast.Call)
+               and isinstance(a.value.func, ast.Attribute) and a.value.func.attr == "get" and src(a.value.func.value).endswith("flow_states") and "uid" in src(a.value)}
+
+    def in_use(e):
+        # the positive form of "an instance is registered under this uid"
+        if isinstance(e, ast.Compare) and len(e.ops) == 1 and isinstance(e.ops[0], ast.In) and src(e.comparators[0]).endswith("flow_states") and "uid" in src(e.left):
+            return True
+        return isinstance(e, ast.Name) and e.id in lookups
+
+    def is_none(e):
+        return isinstance(e, ast.Compare) and len(e.ops) == 1 and isinstance(e.ops[0], ast.Is) and isinstance(e.left, ast.Name) and e.left.id in lookups and src(e.comparators[0]) == "None"
+
+    def is_not_none(e):
+        return isinstance(e, ast.Compare) and len(e.ops) == 1 and isinstance(e.ops[0], ast.IsNot) and isinstance(e.left, ast.Name) and e.left.id in lookups and src(e.comparators[0]) == "None"
+
+    def not_in_use(e):
+        return isinstance(e, ast.Compare) and len(e.ops) == 1 and isinstance(e.ops[0], ast.NotIn) and src(e.comparators[0]).endswith("flow_states") and "uid" in src(e.left)
+
+    def done(e):
+        return isinstance(e, ast.Call) and call_name(e) == "_is_done_flow"
+
+    writes = [n for n in cfg.nodes if n.stmt is not None and n.kind != "test" and (
+        (isinstance(n.stmt, ast.Expr) and isinstance(n.stmt.value, ast.Call) and src(n.stmt.value.func).endswith("flow_states.update")) or
+        (isinstance(n.stmt, ast.Assign) and isinstance(n.stmt.targets[0], ast.Subscript) and src(n.stmt.targets[0].value).endswith("flow_states")))]
+    ctx.floor("C09.b.instance-uid-unique", SM, "registrations in state.flow_states by add_new_flow_instance", len(writes), 1)
+    alive = cfg.reachable_under([cfg.entry], {in_use: True, is_none: False, is_not_none: True, not_in_use: False, done: False})
+    ended = cfg.reachable_under([cfg.entry], {in_use: True, is_none: False, is_not_none: True, not_in_use: False, done: True})
     start_branches = [i for i in ast.walk(disp) if isinstance(i, ast.If) and "START_FLOW" in src(i.test)]
-    ok = tests_uid(add) or any(isinstance(j, ast.If) and "flow_instance_uid" in src(j.test) and "flow_states" in src(j.test) and "source_flow_instance_uid" not in src(j.test)
-                               for i in start_branches for st in i.body for j in ast.walk(st))
+    ignored = any(isinstance(j, ast.If) and "flow_instance_uid" in src(j.test) and "flow_states" in src(j.test) and "source_flow_instance_uid" not in src(j.test)
+                  for i in start_branches for st in i.body for j in ast.walk(st))
+    ok = ignored or not any(w in alive for w in writes)
     ctx.check("C09.b.instance-uid-unique", SM, "add_new_flow_instance", "a uid in use is not registered again", ok,
-              "a start that names the uid of an instance that has not ended is refused" if ok else
+              "a start that names the uid of an instance that has not ended is refused: the registration is not reachable when the uid is in use by a live instance" if ok else
               "state.flow_states[uid] is overwritten without looking whether a running instance has that uid: the old instance's waiting head stays in event_matching_heads and every "
               "later event of that name raises KeyError (no flow can process it any more)", line=add.lineno)
+    # the other direction (F169): ended instances stay registered until the clean-up, such a uid is free again
+    raises = [n for n in ended if n.stmt is not None and isinstance(n.stmt, ast.Raise)]
+    ok2 = not raises
+    ctx.check("C09.b.ended-uid-free", SM, "add_new_flow_instance", "a uid whose instance has ended can be used again", ok2,
+              "no refusal is reachable when the registered instance has ended" if ok2 else
+              "`%s` is reached also when the instance registered under the uid has ENDED (ended instances stay in state.flow_states until the clean-up): a flow that is "
+              "started again under the uid of its finished predecessor is refused and its sender fails" % first_line(raises[0].stmt), line=(raises[0].stmt.lineno if raises else add.lineno))
+    if any(w in ended for w in writes) and any(in_use(a_) or is_none(a_) or is_not_none(a_) or not_in_use(a_) for n in cfg.nodes if n.kind == "test" and isinstance(n.ast, ast.expr) for a_ in atoms(n.ast)):
+        # the ended instance is replaced: its entry in the per-flow list goes with it (the list is what restarts and deactivations walk)
+        removal = [n for n in cfg.nodes if n.stmt is not None and isinstance(n.stmt, ast.Expr) and isinstance(n.stmt.value, ast.Call) and isinstance(n.stmt.value.func, ast.Attribute)
+                   and n.stmt.value.func.attr == "remove" and "flow_id_states" in src(n.stmt.value.func.value)]
+        ok3 = any(r in ended for r in removal)
+        ctx.check("C09.b.ended-uid-free", SM, "add_new_flow_instance", "the replaced instance leaves the per-flow list", ok3,
+                  "the ended instance is taken out of state.flow_id_states before its uid is registered again" if ok3 else
+                  "the ended instance is overwritten in state.flow_states but stays in state.flow_id_states[flow_id]: the per-flow list then holds an instance that the state no longer knows "
+                  "(deactivation and restart walk that list and look its members up by uid)", line=add.lineno)
 
 
 def g_action_refs(ctx):
